@@ -244,3 +244,42 @@ def sdm_wiring(prog, _):
         elif r == "unknown":
             res["inconclusive"].append("wiring query undecided")
     return finish(res, I, S, t0)
+
+
+def hour_angle_formula(prog, _):
+    """get_hour_angle(day, (d1, d2), x) for every day fraction x in [0,1]: the result lies in [-180,180] and is congruent (mod 360, 1e-9
+    deg slack for the f64 value of the literal) to  sid0 + 360.985647 x + lon - (ra + x (d1 + d2 x)/2)  - Greenwich sidereal time
+    advanced at the fixed sidereal rate, plus east longitude, minus the quadratic-interpolated right ascension (Meeus 3.3). Used by the
+    sunrise/sunset iteration (C02) and the transit (C01) alike; nothing else of the day enters."""
+    t0 = time.time()
+    res = new_res("get_hour_angle = sid + 360.985647 x + lon - RA(x) (mod 360) in [-180,180] for every day fraction x in [0,1]", ["get_hour_angle",
+                  "LimitAngle::cap_angle_360", "LimitAngle::cap_angle_between_180"])
+    S, I, st, tc, V = setup_transit(prog)
+    mf0 = mf_transit(V)
+    x, d1, d2 = z3.Real("day_fraction"), z3.Real("ra_d1"), z3.Real("ra_d2")
+    st.add([x >= 0, x <= 1, d1 >= rv("1.5"), d1 <= rv("2.5"), d2 >= rv("-0.05"), d2 <= rv("0.05")])
+    P = z3.Real("ra_quad")          # x (d1 + d2 x)/2 as one abstract quantity on both sides keeps the query linear
+    outs = I.run_body(prog.find_body("get_hour_angle"), [Ref(tc, ()), Tup([d1, d2]), x], st=st)
+
+    def mf(m):
+        d = mf0(m)
+        d.update({"day_fraction": mval(m, x), "d1": mval(m, d1), "d2": mval(m, d2)})
+        return d
+    uc = V["ras"][1]
+    for o in std_path_checks(res, I, S, outs, mf):
+        H = to_z3(o.value)
+        oracle = V["sid"] + RATE * x + V["lon"] - uc - x * (d1 + d2 * x) / 2
+        diff = H - oracle
+        bad = z3.Or(H < -180 - rv("0.000000001"), H > 180 + rv("0.000000001"),
+                    z3.And([z3.Or(diff - 360 * kk > rv("0.000000001"), diff - 360 * kk < rv("-0.000000001")) for kk in range(-4, 5)]))
+        r, m = S.check(o.st.pc + [bad], timeout_ms=60000, want_model=True)
+        if r == "unknown":
+            r2 = _smt.check_nra(list(o.st.pc) + [bad], timeout_ms=60000)
+            r = r2 if r2 in ("sat", "unsat") else r
+            m = None
+        if r == "sat":
+            res["cands"].append({"what": "hour angle is not sid + 360.985647 x + lon - RA(x) (mod 360) within [-180,180]",
+                                 "inputs": mf(m) if m is not None else {}, "transit": True})
+        elif r == "unknown":
+            res["inconclusive"].append("hour-angle formula query undecided")
+    return finish(res, I, S, t0)
